@@ -15,6 +15,7 @@ RULE = ("seeded generator over (layer|FNO) x spatial dim 1-3 x resolution 4-64 (
         "modes 1..2n per axis (truncating and zero-padding) x linear/skip/bias flags x FNO depth 1-4 x dtype; "
         "a case is non-trivial when at least one non-zero shift on every axis was compared; distinct = "
         "(kind, dim, per-axis truncate/pad pattern, flags, dtype, depth)")
+RULE += '; 40 % of the resolution cases first evaluate the layer, then change its parameters in eval mode (load_state_dict / in-place copy / SGD step) and compare with a fresh layer holding the same parameters'
 REQUIRED_REACH = ["_FourierLayer.forward", "FNO.forward"]
 MIN_NONTRIVIAL = 8
 ASSUMPTIONS = ["batch normalisation off (documented to remove resolution invariance)",
